@@ -1,16 +1,16 @@
 use super::{
     error::Error,
     find_crlf,
+    parse_number,
     CRLF,
 };
 use rhymessage::MessageHeaders;
 
 fn parse_chunk_size(chunk_size_line: &str) -> Result<usize, Error> {
-    let delimiter = chunk_size_line
-        .find(|c| c == ';' || c == '\r')
-        .unwrap_or_else(|| chunk_size_line.len());
+    let delimiter =
+        chunk_size_line.find(';').unwrap_or_else(|| chunk_size_line.len());
     let chunk_size = &chunk_size_line[..delimiter];
-    usize::from_str_radix(chunk_size, 16).map_err(Error::InvalidChunkSize)
+    parse_number(chunk_size, 16).map_err(Error::InvalidChunkSize)
 }
 
 #[derive(Debug, Eq, PartialEq)]
